@@ -90,3 +90,45 @@ Definition pchk (c : pcase) (impl : trace) : N :=
   verdict (horizon_ok (p_inner c) (p_h c) (s_scr (p_src c), sh (p_src c)) &&
            trace_eqb impl (prun c (length impl)))
           (gen_ok (pref c) (pfused c) impl).
+
+(* ---- a binary combinator over two pipelines ---- *)
+Inductive btop := BZip | BChain | BZipLongest | BCross.
+Record bcase := BCase { b_h : nat; b_sa : list stage; b_a : srcN; b_sb : list stage; b_b : srcN;
+                        b_top : btop }.
+
+Definition brun (c : bcase) (n : nat) : trace :=
+  let ua := levels (b_sa c) (b_h c) (s_scr (b_a c), sh (b_a c)) in
+  let ub := levels (b_sb c) (b_h c) (s_scr (b_b c), sh (b_b c)) in
+  match b_top c with
+  | BZip => conv vpair (polls (zip_m (snd ua) (snd ub)) n (None, fst ua, fst ub))
+  | BChain => conv VN (polls (chain_m (snd ua) (snd ub)) n (fst ua, fst ub))
+  | BZipLongest => conv veob (polls (zipl_m (snd ua) (snd ub)) n (None, fst ua, fst ub))
+  | BCross => conv vpair (polls (@cross_m N N (snd ua)) n (None, fst ua, fst ub))
+  end.
+
+Definition side_ref (gs : list stage) (a : srcN) : list N :=
+  fold_left (fun l g => stage_ref g l) gs (items (s_scr a)).
+Definition side_fused (gs : list stage) (a : srcN) : bool :=
+  fold_left (fun b g => stage_fused g b) gs (fused_b (s_scr a)).
+
+Definition bref (c : bcase) : list val :=
+  let ra := side_ref (b_sa c) (b_a c) in
+  let rb := side_ref (b_sb c) (b_b c) in
+  match b_top c with
+  | BZip => map vpair (combine ra rb)
+  | BChain => map VN (ra ++ rb)
+  | BZipLongest => map veob (zip_longest_ref ra rb)
+  | BCross => map vpair (cross_ref ra rb)
+  end.
+
+Definition bfused (c : bcase) : bool :=
+  match b_top c with
+  | BZip => false
+  | BChain | BZipLongest | BCross => side_fused (b_sa c) (b_a c) && side_fused (b_sb c) (b_b c)
+  end.
+
+Definition bchk (c : bcase) (impl : trace) : N :=
+  verdict (horizon_ok (b_sa c) (b_h c) (s_scr (b_a c), sh (b_a c)) &&
+           horizon_ok (b_sb c) (b_h c) (s_scr (b_b c), sh (b_b c)) &&
+           trace_eqb impl (brun c (length impl)))
+          (gen_ok (bref c) (bfused c) impl).
